@@ -296,4 +296,122 @@ theorem loadInto_sim (S : Schema) (hS : GoodSchema S) :
         rfl
       · rw [foldl_cls]; rfl
 
+/-! ### the byte-level statement -/
+
+/-- `load_complete` (stated in `BpProofs/Props/C02.lean`) -/
+theorem load_complete_bytes (S : Schema) (hS : GoodSchema S) (c : Nat) (d : MsgD) (hd : S[c]? = some d)
+    (bs : Bytes) (v : Val) (hn : narrow32 S (bs.length + 1) d bs = true) (h : parse S c bs = .ok v) :
+    ∃ a, Spec.decodeBytes S c bs = some a ∧ a.nrm = absOf v := by
+  unfold parse at h
+  rw [fresh_eq S c d hd] at h
+  simp only [parseInto, hd] at h
+  have e : ({ slots := (freshState d).slots, onWire := false, unknown := [], cur := (freshState d).cur } : MState)
+      = freshState d := rfl
+  rw [e] at h
+  cases hl : loadInto S (bs.length + 1) d (freshState d) bs with
+  | error e => rw [hl] at h; simp at h
+  | ok st =>
+    rw [hl] at h
+    simp only [bind_ok] at h
+    injection h with h
+    subst h
+    obtain ⟨m, hm1, hm2, hsim⟩ := loadInto_sim S hS (bs.length + 1) bs c d st (goodSchema_class S hS c d hd) hn hl
+    refine ⟨m, by rw [decodeBytes_eq_sub S c d hd bs, hm1], ?_⟩
+    simp only [Spec.AbsMsg.nrm, MState.toVal, absOf, hm2, hsim.slots, hsim.sel]
+
+/-! ### schemas without `uint32` / `sint32`: the input guard holds for every byte string -/
+
+def noNarrowFieldB (f : FieldD) : Bool :=
+  !isNarrowTy f.ty && !isNarrowTy f.mapK && !isNarrowTy f.mapV &&
+    (match f.wraps with
+     | some w => !isNarrowTy w
+     | Option.none => true)
+
+/-- no field, map key / value or wrapper of type `uint32` / `sint32` anywhere in the schema -/
+def noNarrowB (S : Schema) : Bool := S.all fun d => d.fields.all noNarrowFieldB
+
+theorem narrow32_of_noNarrow (S : Schema) (hS : noNarrowB S = true) :
+    ∀ (n : Nat) (d : MsgD) (bs : Bytes), (∀ f ∈ d.fields, noNarrowFieldB f = true) → narrow32 S n d bs = true := by
+  intro n
+  induction n with
+  | zero => intro d bs _; rfl
+  | succ n ih =>
+    intro d bs hd
+    simp only [narrow32]
+    cases hp : loadFields bs with
+    | error e => rfl
+    | ok pfs =>
+      simp only [List.all_eq_true]
+      intro pf _
+      unfold narrowField
+      cases hf : findField d.fields pf.num with
+      | none => rfl
+      | some idx =>
+        simp only
+        cases hfi : d.fields[idx]? with
+        | none => rfl
+        | some f =>
+          simp only
+          have hfn := hd f (List.mem_of_getElem? hfi)
+          unfold noNarrowFieldB at hfn
+          simp only [Bool.and_eq_true, Bool.not_eq_true'] at hfn
+          obtain ⟨⟨⟨h1, h2⟩, h3⟩, h4⟩ := hfn
+          simp only [h1, Bool.not_false, Bool.true_or, Bool.true_and]
+          have hsub : ∀ d', subDesc S f = some d' → narrow32 S n d' pf.payload = true := by
+            intro d' hd'
+            apply ih
+            unfold subDesc at hd'
+            split at hd'
+            · injection hd' with hd'; subst hd'
+              intro g hg
+              rw [entryD_fields] at hg
+              simp at hg
+              rcases hg with rfl | rfl
+              · simp [noNarrowFieldB, keyFieldOf, h2, show isNarrowTy PType.int32 = false from rfl]
+              · simp [noNarrowFieldB, valFieldOf, h3, show isNarrowTy PType.int32 = false from rfl]
+            · split at hd'
+              · cases hw : f.wraps with
+                | some w =>
+                  rw [hw] at hd' h4
+                  simp only at hd' h4
+                  injection hd' with hd'; subst hd'
+                  intro g hg
+                  simp [wrapperD] at hg
+                  subst hg
+                  simp only [Bool.not_eq_true'] at h4
+                  simp [noNarrowFieldB, h4, show isNarrowTy PType.int32 = false from rfl]
+                | none =>
+                  rw [hw] at hd'
+                  simp only at hd'
+                  cases hk : f.kind with
+                  | user c =>
+                    rw [hk] at hd'
+                    simp only at hd'
+                    unfold noNarrowB at hS
+                    simp only [List.all_eq_true] at hS
+                    exact hS d' (List.mem_of_getElem? hd')
+                  | timestamp =>
+                    rw [hk] at hd'; injection hd' with hd'; subst hd'
+                    intro g hg; simp [secNanosD] at hg
+                    rcases hg with rfl | rfl <;> rfl
+                  | duration =>
+                    rw [hk] at hd'; injection hd' with hd'; subst hd'
+                    intro g hg; simp [secNanosD] at hg
+                    rcases hg with rfl | rfl <;> rfl
+              · simp at hd'
+          split
+          · rfl
+          · split
+            · cases hsd : subDesc S f with
+              | none => rfl
+              | some d' => exact hsub d' hsd
+            · rfl
+
+theorem narrow32_of_noNarrow_class (S : Schema) (hS : noNarrowB S = true) (c : Nat) (d : MsgD) (hd : S[c]? = some d)
+    (n : Nat) (bs : Bytes) : narrow32 S n d bs = true := by
+  apply narrow32_of_noNarrow S hS
+  unfold noNarrowB at hS
+  simp only [List.all_eq_true] at hS
+  exact hS d (List.mem_of_getElem? hd)
+
 end Bp.Link
